@@ -37,6 +37,7 @@ type C06Scenario struct {
 	Waiter    []C06Step   `json:"waiter"`
 	Others    [][]C06Step `json:"others"` // concurrent publisher tasks (pub / sleep only)
 	StoreKind int         `json:"store"`  // 0 store with Close, 1 store without Close, 2 Close fails, 3 no store
+	TimeoutMs int         `json:"persist_timeout_ms,omitempty"` // WithPersistenceTimeout (bounds the append only, never a handler's context)
 }
 
 func genC06(rt *rapid.T) core.Scenario {
@@ -84,6 +85,9 @@ func genC06(rt *rapid.T) core.Scenario {
 		sc.Others = append(sc.Others, l)
 	}
 	sc.StoreKind = rapid.IntRange(0, 3).Draw(rt, "store")
+	if sc.StoreKind != 3 {
+		sc.TimeoutMs = rapid.SampledFrom([]int{0, 0, 1, 30}).Draw(rt, "persistTimeout")
+	}
 	sc.Tape = core.DrawTape(rt, 500)
 	return sc
 }
@@ -151,6 +155,9 @@ func (sc *C06Scenario) Execute(t *testing.T) *core.Outcome {
 			opts = append(opts, eventbus.WithStore(cs))
 		case 1:
 			opts = append(opts, eventbus.WithStore(&plainStore{}))
+		}
+		if sc.TimeoutMs > 0 {
+			opts = append(opts, eventbus.WithPersistenceTimeout(time.Duration(sc.TimeoutMs)*time.Millisecond))
 		}
 		w = NewWorld(opts...)
 		if cs != nil {
